@@ -96,6 +96,10 @@ def _place(parent: str, depth: int):
     root = project(files, name="proj", parent=holder)
     other = base / "elsewhere"
     other.mkdir()
+    # the other working directory is a project of its own whose ignore file excludes everything:
+    # it has nothing to say about the project being linted
+    (other / ".git").mkdir()
+    (other / ".thailintignore").write_text("*.py\n*.ts\n*.js\n*.rs\n*.txt\n*.md\n")
     (other / "link").symlink_to(root, target_is_directory=True)
     return base, root, other, index
 
